@@ -1299,6 +1299,12 @@ class Compiler:
         fallback = identifier("__fallback", id(node))
         body += template("fallback = len(__stream)", fallback=fallback)
 
+        # Error records written on the way up (by macros and slot
+        # fillers) belong to a failure that is handled here
+        errors = identifier("__errors", id(node))
+        body += template(
+            "errors = len(rcontext.get('__error__', ()))", errors=errors)
+
         self._enter_assignment((node.name, ))
         fallback_body = self.visit(node.fallback)
         self._leave_assignment((node.name, ))
@@ -1319,6 +1325,10 @@ class Compiler:
                 name="__exc",
                 body=(error_assignment +
                       template("del __stream[fallback:]", fallback=fallback) +
+                      template(
+                          "if '__error__' in rcontext: "
+                          "del rcontext['__error__'][errors:]",
+                          errors=errors) +
                       fallback_body
                       ),
             )],
